@@ -12,8 +12,8 @@ import EdzedProps.C09
 import EdzedModel.Gen.Translated
 import EdzedModel.Gen.TranslatedExt
 import EdzedModel.Wiring
-import EdzedProofs.Ctor
-import EdzedProofs.CtorTie
+import EdzedProofs.BlkCtor
+import EdzedProofs.BlkCtorTie
 
 namespace Edzed.ExtEvent
 open ErrorReg
@@ -321,71 +321,71 @@ theorem translated_ext_send_is_model (ready : Bool) (dflt : String) (value : Opt
 
 /-! ### the constructors and the circuit registry, translated
 
-tools/py2lean_ctor.py regenerates `Gen/TranslatedCtor.lean` from the current source of `check_name`,
+tools/py2lean_blkctor.py regenerates `Gen/TranslatedBlkCtor.lean` from the current source of `check_name`,
 `Block.__init__`, `Block.has_method`, `SBlock.__init__`, `CBlock.__init__`, `ExtEvent.__init__`,
 `Const.__new__/__init__`, `Circuit.__init__`, `Circuit.is_current_task`, `get_circuit`, `reset_circuit`: programs over a
-heap of objects whose leaves are parameters (`CtorPy.CPrims`).  `CtorTie.prims` instantiates the leaves on the
-heap of `EdzedModel/Ctor.lean`; the theorems `translated_ctor_…_is_model` say that the generated programs ARE the
+heap of objects whose leaves are parameters (`BlkCtorPy.CPrims`).  `BlkCtorTie.prims` instantiates the leaves on the
+heap of `EdzedModel/BlkCtor.lean`; the theorems `translated_ctor_…_is_model` say that the generated programs ARE the
 model's functions, for all arguments and all states.  The property-level statements follow. -/
 
-open Edzed.CtorPy Edzed.Ctor Edzed.CtorTie
+open Edzed.BlkCtorPy Edzed.BlkCtor Edzed.BlkCtorTie
 
 theorem translated_ctor_check_name_is_model (a : Arg Nat) (nametype : String) (w : World) :
-    Gen.TrC.checkName prims a nametype w = (w, (checkName a).map fun _ => ()) := checkName_tie a nametype w
+    Gen.TrBC.checkName prims a nametype w = (w, (checkName a).map fun _ => ()) := checkName_tie a nametype w
 
 /-- `Circuit()` = allocation + the translated `Circuit.__init__`: the new object carries exactly the nine
     attributes of `freshCircuitAttrs`, in that order -/
 theorem translated_ctor_circuit_init_is_model (w : World) :
-    Gen.TrC.circuitCall prims w = ((newCircuit w).1, .ok (newCircuit w).2) := circuitCall_tie w
+    Gen.TrBC.circuitCall prims w = ((newCircuit w).1, .ok (newCircuit w).2) := circuitCall_tie w
 
 theorem translated_ctor_get_circuit_is_model (w : World) :
-    Gen.TrC.getCircuit prims w = ((getCircuit w).1, .ok (some (getCircuit w).2)) := getCircuit_tie w
+    Gen.TrBC.getCircuit prims w = ((getCircuit w).1, .ok (some (getCircuit w).2)) := getCircuit_tie w
 
 theorem translated_ctor_reset_circuit_is_model (w : World) :
-    Gen.TrC.resetCircuit prims w = (resetCircuit w, .ok ()) := resetCircuit_tie w
+    Gen.TrBC.resetCircuit prims w = (resetCircuit w, .ok ()) := resetCircuit_tie w
 
 theorem translated_ctor_is_current_task_is_model (c : Nat) (w : World) :
-    Gen.TrC.isCurrentTask prims c w = (w, .ok (isCurrentTask w c)) := isCurrentTask_tie c w
+    Gen.TrBC.isCurrentTask prims c w = (w, .ok (isCurrentTask w c)) := isCurrentTask_tie c w
 
 theorem translated_ctor_has_method_is_model (o : Nat) (name : String) (w : World) :
-    Gen.TrC.hasMethod prims o name w = (w, hasMethod w o name) := hasMethod_tie o name w
+    Gen.TrBC.hasMethod prims o name w = (w, hasMethod w o name) := hasMethod_tie o name w
 
 theorem translated_ctor_block_init_is_model (self : Nat) (name comment onOutput reserved debug : Arg Nat)
     (xkw : Kw (Arg Nat)) (w : World) :
-    Gen.TrC.blockInit prims self name comment onOutput reserved debug xkw w
+    Gen.TrBC.blockInit prims self name comment onOutput reserved debug xkw w
       = blockInit w self name comment onOutput reserved debug xkw :=
   blockInit_tie self name comment onOutput reserved debug xkw w
 
 /-- the binding of `*args / **kwargs` to the signature of `Block.__init__` and its DEFAULTS
     (`comment=""`, `on_output=None`, `_reserved=False`, `debug=False`) -/
 theorem translated_ctor_block_call_is_model (self : Nat) (args : List (Arg Nat)) (kw : Kw (Arg Nat)) (w : World) :
-    Gen.TrC.blockInitCall prims self args kw w = blockInitCall w self args kw := blockInitCall_tie self args kw w
+    Gen.TrBC.blockInitCall prims self args kw w = blockInitCall w self args kw := blockInitCall_tie self args kw w
 
 theorem translated_ctor_sblock_init_is_model (self : Nat) (args : List (Arg Nat)) (onEvery : Arg Nat)
     (kw : Kw (Arg Nat)) (w : World) :
-    Gen.TrC.sblockInit prims self args onEvery kw w = sblockInit w self args onEvery kw :=
+    Gen.TrBC.sblockInit prims self args onEvery kw w = sblockInit w self args onEvery kw :=
   sblockInit_tie self args onEvery kw w
 
 theorem translated_ctor_sblock_call_is_model (self : Nat) (args : List (Arg Nat)) (kw : Kw (Arg Nat)) (w : World) :
-    Gen.TrC.sblockInitCall prims self args kw w = sblockInitCall w self args kw := sblockInitCall_tie self args kw w
+    Gen.TrBC.sblockInitCall prims self args kw w = sblockInitCall w self args kw := sblockInitCall_tie self args kw w
 
 theorem translated_ctor_cblock_init_is_model (self : Nat) (args : List (Arg Nat)) (kw : Kw (Arg Nat)) (w : World) :
-    Gen.TrC.cblockInit prims self args kw w = cblockInit w self args kw := cblockInit_tie self args kw w
+    Gen.TrBC.cblockInit prims self args kw w = cblockInit w self args kw := cblockInit_tie self args kw w
 
 theorem translated_ctor_cblock_call_is_model (self : Nat) (args : List (Arg Nat)) (kw : Kw (Arg Nat)) (w : World) :
-    Gen.TrC.cblockInitCall prims self args kw w = cblockInitCall w self args kw := cblockInitCall_tie self args kw w
+    Gen.TrBC.cblockInitCall prims self args kw w = cblockInitCall w self args kw := cblockInitCall_tie self args kw w
 
 theorem translated_ctor_ext_init_is_model (self : Nat) (dest etype source : Arg Nat) (w : World) :
-    Gen.TrC.extInit prims self dest etype source w = extInit w self dest etype source :=
+    Gen.TrBC.extInit prims self dest etype source w = extInit w self dest etype source :=
   extInit_tie self dest etype source w
 
 /-- the defaults of `ExtEvent(dest, etype='put', source='_ext_')` -/
 theorem translated_ctor_ext_call_is_model (self : Nat) (args : List (Arg Nat)) (kw : Kw (Arg Nat)) (w : World) :
-    Gen.TrC.extInitCall prims self args kw w = extInitCall w self args kw := extInitCall_tie self args kw w
+    Gen.TrBC.extInitCall prims self args kw w = extInitCall w self args kw := extInitCall_tie self args kw w
 
 /-- `Const(value)` = the translated `__new__` followed by the translated `__init__` -/
 theorem translated_ctor_const_is_model (cls : String) (v : Arg Nat) (w : World) :
-    Gen.TrC.constCall prims cls v w = constCall w cls v := constCall_tie cls v w
+    Gen.TrBC.constCall prims cls v w = constCall w cls v := constCall_tie cls v w
 
 /-! #### the reserved names (C14: "user-defined blocks cannot have names beginning with an underscore") -/
 
@@ -394,7 +394,7 @@ theorem translated_ctor_const_is_model (cls : String) (v : Arg Nat) (w : World) 
 theorem translated_ctor_underscore_name_refused (w : World) (self : Nat) (s : String)
     (comment onOutput reserved debug : Arg Nat) (xkw : Kw (Arg Nat))
     (hs : strStartsWith s "_" = true) (hr : reserved.truthy = false) :
-    (Gen.TrC.blockInit prims self (.val (.str s)) comment onOutput reserved debug xkw w).2 = .error "ValueError" := by
+    (Gen.TrBC.blockInit prims self (.val (.str s)) comment onOutput reserved debug xkw w).2 = .error "ValueError" := by
   rw [blockInit_tie]
   have hne : (s == "") = false := by
     cases he : (s == "") with
@@ -408,7 +408,7 @@ theorem translated_ctor_underscore_name_refused (w : World) (self : Nat) (s : St
   simp [blockInit, blockName, checkName, hn, hst, hne, hs, hr]
 
 /-- non-vacuity: `_ctrl` without `_reserved` in an empty world -/
-example : outcome (Gen.TrC.blockInit prims 0 (.val (.str "_ctrl")) (.val (.str "")) .none (.val (.bool false))
+example : outcome (Gen.TrBC.blockInit prims 0 (.val (.str "_ctrl")) (.val (.str "")) .none (.val (.bool false))
     (.val (.bool false)) [] { heap := [{ cls := "K", bases := ["K", "SBlock", "Block"] }] }).2
       = "ValueError" := by decide
 
@@ -416,17 +416,17 @@ example : outcome (Gen.TrC.blockInit prims 0 (.val (.str "_ctrl")) (.val (.str "
 theorem translated_ctor_bad_name_refused (w : World) (self : Nat) (name comment onOutput reserved debug : Arg Nat)
     (xkw : Kw (Arg Nat)) (hn : name.isNone = false) :
     (name.str? = none →
-      (Gen.TrC.blockInit prims self name comment onOutput reserved debug xkw w).2 = .error "TypeError")
+      (Gen.TrBC.blockInit prims self name comment onOutput reserved debug xkw w).2 = .error "TypeError")
     ∧ (name.str? = some "" →
-      (Gen.TrC.blockInit prims self name comment onOutput reserved debug xkw w).2 = .error "ValueError") := by
+      (Gen.TrBC.blockInit prims self name comment onOutput reserved debug xkw w).2 = .error "ValueError") := by
   rw [blockInit_tie]
   constructor <;> intro hs <;> simp [blockInit, blockName, checkName, hn, hs]
 
 /-- a successful `Block.__init__` on an existing object has stored as `self.name` what the name rules
-    (`Ctor.blockName`) give for the given name, `_reserved`, the class and the names already in the circuit -/
+    (`BlkCtor.blockName`) give for the given name, `_reserved`, the class and the names already in the circuit -/
 theorem translated_ctor_block_init_stores_name (w w' : World) (self : Nat)
     (name comment onOutput reserved debug : Arg Nat) (xkw : Kw (Arg Nat)) (hs : self < w.heap.length)
-    (h : Gen.TrC.blockInit prims self name comment onOutput reserved debug xkw w = (w', .ok ())) :
+    (h : Gen.TrBC.blockInit prims self name comment onOutput reserved debug xkw w = (w', .ok ())) :
     ∃ nm cls names, blockName name reserved cls names = .ok nm ∧ w'.get? self "name" = some (.arg nm) := by
   rw [blockInit_tie] at h
   exact blockInit_name_stored w w' self name comment onOutput reserved debug xkw hs h
@@ -457,7 +457,7 @@ theorem translated_ctor_auto_name_of_class_ext_is_marked (reserved : Arg Nat) (n
     the block `_ext_0` -/
 example :
     let w0 : World := { heap := [{ cls := "ext", bases := ["ext", "SBlock", "Block"] }] }
-    let r := Gen.TrC.sblockInitCall prims 0 [Arg.none] [] w0
+    let r := Gen.TrBC.sblockInitCall prims 0 [Arg.none] [] w0
     outcome r.2 = "ok" ∧ r.1.nameOf 0 = "_ext_0" ∧ (r.1.blocks 1).map (·.1) = ["_ext_0"] := by decide
 
 /-- without `_reserved` no GIVEN name is marked: (b) needs a true `_reserved` -/
@@ -508,11 +508,11 @@ theorem translated_ctor_auto_name_is_render (cls : String) (names : List String)
 /-- a keyword argument that begins neither with `x_` nor with `X_` is refused -/
 theorem translated_ctor_refused_keyword (w : World) (self : Nat) (name comment onOutput reserved debug : Arg Nat)
     (xkw : Kw (Arg Nat)) (hbad : xkw.any (fun p => !goodKey p.1) = true) :
-    ∃ w' e, Gen.TrC.blockInit prims self name comment onOutput reserved debug xkw w = (w', .error e) := by
+    ∃ w' e, Gen.TrBC.blockInit prims self name comment onOutput reserved debug xkw w = (w', .error e) := by
   rw [blockInit_tie]
   exact blockInit_refuses_keyword w self name comment onOutput reserved debug xkw hbad
 
-example : ∃ w' e, Gen.TrC.blockInit prims 0 (.val (.str "a")) .none .none .none .none [("x_ok", .none), ("colour", .none)]
+example : ∃ w' e, Gen.TrBC.blockInit prims 0 (.val (.str "a")) .none .none .none .none [("x_ok", .none), ("colour", .none)]
     { heap := [{ cls := "K", bases := ["K", "SBlock", "Block"] }] } = (w', .error e) :=
   translated_ctor_refused_keyword _ _ _ _ _ _ _ _ (by decide)
 
@@ -521,7 +521,7 @@ example : ∃ w' e, Gen.TrC.blockInit prims 0 (.val (.str "a")) .none .none .non
 /-- **every constructed ExtEvent carries a marked default source**: for every `source` argument (the empty string
     included) a successful `ExtEvent.__init__` stored a str beginning with `_ext_` as `_source` -/
 theorem translated_ctor_ext_source_marked (w w' : World) (self : Nat) (dest etype source : Arg Nat)
-    (hs : self < w.heap.length) (h : Gen.TrC.extInit prims self dest etype source w = (w', .ok ())) :
+    (hs : self < w.heap.length) (h : Gen.TrBC.extInit prims self dest etype source w = (w', .ok ())) :
     ∃ s src, source.str? = some s ∧ w'.get? self "_source" = some (.str src) ∧ src = extSource s
       ∧ strStartsWith src "_ext_" = true := by
   rw [extInit_tie] at h
@@ -531,7 +531,7 @@ theorem translated_ctor_ext_source_marked (w w' : World) (self : Nat) (dest etyp
 /-- a `source` that is not a str -- None included -- is refused, whatever the destination and event type -/
 theorem translated_ctor_ext_non_string_source_refused (w : World) (self : Nat) (dest etype source : Arg Nat)
     (hs : source.str? = none) :
-    ∃ w' e, Gen.TrC.extInit prims self dest etype source w = (w', .error e) := by
+    ∃ w' e, Gen.TrBC.extInit prims self dest etype source w = (w', .error e) := by
   rw [extInit_tie]
   exact extInit_non_string_source w self dest etype source hs
 
@@ -539,10 +539,10 @@ theorem translated_ctor_ext_non_string_source_refused (w : World) (self : Nat) (
 example :
     let w0 : World := { heap := [{ cls := "Circuit", bases := ["Circuit"], attrs := [("_blocks", .dict [("b", 1)])] },
                                  { cls := "K", bases := ["K", "SBlock", "Block"] }, {}], current := some 0 }
-    (Gen.TrC.extInit prims 2 (.val (.str "b")) (.val (.str "put")) (.val (.str "")) w0).1.get? 2 "_source"
+    (Gen.TrBC.extInit prims 2 (.val (.str "b")) (.val (.str "put")) (.val (.str "")) w0).1.get? 2 "_source"
         = some (.str "_ext_")
-    ∧ outcome (Gen.TrC.extInit prims 2 (.val (.str "b")) (.val (.str "put")) .none w0).2 = "TypeError"
-    ∧ (Gen.TrC.extInitCall prims 2 [.obj 1] [] w0).1.get? 2 "_source" = some (.str "_ext_") := by decide
+    ∧ outcome (Gen.TrBC.extInit prims 2 (.val (.str "b")) (.val (.str "put")) .none w0).2 = "TypeError"
+    ∧ (Gen.TrBC.extInitCall prims 2 [.obj 1] [] w0).1.get? 2 "_source" = some (.str "_ext_") := by decide
 
 /-- the stored source is the one of the model of `send` and of the older value translation -/
 theorem translated_ctor_ext_source_is_mkSource (s : String) :
@@ -573,7 +573,7 @@ def extCtorOutcome : ExtEvent.CtorRes → String
 /-- the translated `ExtEvent.__init__` refines the constructor model the correspondence has compared with the real
     code from the start (`ExtEvent.ctor`: six kinds of destination x event type x source): same outcome -/
 theorem translated_ctor_ext_init_refines_ctor (w : World) (self : Nat) (dest : Arg Nat) (e s : Val) :
-    outcome (Gen.TrC.extInit prims self dest (.val e) (.val s) w).2
+    outcome (Gen.TrBC.extInit prims self dest (.val e) (.val s) w).2
       = extCtorOutcome (ExtEvent.ctor (extDestKind w dest) e s) := by
   rw [extInit_tie]
   have key : ∀ (w1 : World) (d : Arg Nat), isSBlock w1 d = true →
@@ -650,7 +650,7 @@ theorem translated_ctor_ext_init_refines_ctor (w : World) (self : Nat) (dest : A
     ready (`Circuit.is_ready()` -- the translated `Gen.Tr.isReady` -- is false), has no simulation task, no
     error, is not finalized and has no blocks: the initial `ErrorReg.St` and the initial `Wiring.Circ` -/
 theorem translated_ctor_fresh_circuit_state (w w' : World) (c : Nat)
-    (h : Gen.TrC.circuitCall prims w = (w', .ok c)) :
+    (h : Gen.TrBC.circuitCall prims w = (w', .ok c)) :
     Gen.Tr.isReady (if w'.attrIsNone c "_simtask" then none else some ())
         (if w'.attrIsNone c "_error" then none else some ()) = false
     ∧ isReady w' c = ({} : ErrorReg.St).ready
@@ -669,12 +669,12 @@ theorem translated_ctor_fresh_circuit_state (w w' : World) (c : Nat)
 
 /-- a freshly imported module has no circuit: the model's initial world -/
 theorem translated_ctor_module_starts_without_circuit :
-    (Gen.TrC.moduleCurrentCircuit : Option Nat) = ({} : World).current := rfl
+    (Gen.TrBC.moduleCurrentCircuit : Option Nat) = ({} : World).current := rfl
 
 /-- `get_circuit()` creates a circuit only when there is none, and then returns the same one again -/
 theorem translated_ctor_get_circuit_idempotent (w : World) :
-    ∃ c, (Gen.TrC.getCircuit prims w).2 = .ok (some c)
-      ∧ Gen.TrC.getCircuit prims (Gen.TrC.getCircuit prims w).1 = ((Gen.TrC.getCircuit prims w).1, .ok (some c)) := by
+    ∃ c, (Gen.TrBC.getCircuit prims w).2 = .ok (some c)
+      ∧ Gen.TrBC.getCircuit prims (Gen.TrBC.getCircuit prims w).1 = ((Gen.TrBC.getCircuit prims w).1, .ok (some c)) := by
   simp only [getCircuit_tie]
   refine ⟨_, rfl, ?_⟩
   have hc : (getCircuit w).1.current = some (getCircuit w).2 := by
@@ -688,11 +688,11 @@ theorem translated_ctor_get_circuit_idempotent (w : World) :
 /-- `reset_circuit()` with a current circuit makes a FRESH circuit the current one: not ready, without blocks,
     not finalized, without error -/
 theorem translated_ctor_reset_gives_fresh_circuit (w : World) (c0 : Nat) (h : w.current = some c0) :
-    ∃ c, (Gen.TrC.resetCircuit prims w).1.current = some c
-      ∧ isReady (Gen.TrC.resetCircuit prims w).1 c = false
-      ∧ (Gen.TrC.resetCircuit prims w).1.blocks c = []
-      ∧ (Gen.TrC.resetCircuit prims w).1.attrTruthy c "_finalized" = false
-      ∧ (Gen.TrC.resetCircuit prims w).1.attrIsNone c "_error" = true := by
+    ∃ c, (Gen.TrBC.resetCircuit prims w).1.current = some c
+      ∧ isReady (Gen.TrBC.resetCircuit prims w).1 c = false
+      ∧ (Gen.TrBC.resetCircuit prims w).1.blocks c = []
+      ∧ (Gen.TrBC.resetCircuit prims w).1.attrTruthy c "_finalized" = false
+      ∧ (Gen.TrBC.resetCircuit prims w).1.attrIsNone c "_error" = true := by
   simp only [resetCircuit_tie, resetCircuit, h]
   generalize (abort w c0 "EdzedCircuitError").1 = w1
   obtain ⟨a, _, c', d, e, _⟩ := newCircuit_state w1
@@ -704,7 +704,7 @@ theorem translated_ctor_reset_gives_fresh_circuit (w : World) (c0 : Nat) (h : w.
 
 /-- … and without a current circuit it does nothing (the early `return`) -/
 theorem translated_ctor_reset_without_circuit (w : World) (h : w.current = none) :
-    Gen.TrC.resetCircuit prims w = (w, .ok ()) := by
+    Gen.TrBC.resetCircuit prims w = (w, .ok ()) := by
   simp [resetCircuit_tie, resetCircuit, h]
 
 /-! #### optional methods, Const -/
@@ -713,8 +713,8 @@ theorem translated_ctor_reset_without_circuit (w : World) (h : w.current = none)
     raises AttributeError and a non-callable attribute all count as "not defined"; only a lookup that raises
     something else makes the call itself fail -/
 theorem translated_ctor_has_method_iff (o : Nat) (name : String) (w : World) :
-    ((Gen.TrC.hasMethod prims o name w).2 = .ok true ↔ lookup w o name = some .method)
-    ∧ ((∃ e, (Gen.TrC.hasMethod prims o name w).2 = .error e) ↔ lookup w o name = some .propRuntimeError) := by
+    ((Gen.TrBC.hasMethod prims o name w).2 = .ok true ↔ lookup w o name = some .method)
+    ∧ ((∃ e, (Gen.TrBC.hasMethod prims o name w).2 = .error e) ↔ lookup w o name = some .propRuntimeError) := by
   rw [hasMethod_tie]
   unfold hasMethod
   cases lookup w o name with
@@ -723,16 +723,16 @@ theorem translated_ctor_has_method_iff (o : Nat) (name : String) (w : World) :
 
 /-- `Const(UNDEF)` is refused -/
 theorem translated_ctor_const_undef_refused (cls : String) (w : World) :
-    (Gen.TrC.constCall prims cls .undef w).2 = .error "ValueError" := by
+    (Gen.TrBC.constCall prims cls .undef w).2 = .error "ValueError" := by
   rw [constCall_tie]
   simp [constCall, Arg.isUndef, Arg.undef]
 
 /-- equal hashable values share ONE instance (`Const(1) is Const(True)`), unhashable ones never do -/
 example :
-    let r1 := Gen.TrC.constCall prims "Const" (.val (.int 1)) {}
-    let r2 := Gen.TrC.constCall prims "Const" (.val (.bool true)) r1.1
-    let r3 := Gen.TrC.constCall prims "Const" (.val (.lst [])) r2.1
-    let r4 := Gen.TrC.constCall prims "Const" (.val (.lst [])) r3.1
+    let r1 := Gen.TrBC.constCall prims "Const" (.val (.int 1)) {}
+    let r2 := Gen.TrBC.constCall prims "Const" (.val (.bool true)) r1.1
+    let r3 := Gen.TrBC.constCall prims "Const" (.val (.lst [])) r2.1
+    let r4 := Gen.TrBC.constCall prims "Const" (.val (.lst [])) r3.1
     r1.2.toOption = some 0 ∧ r2.2.toOption = some 0 ∧ r3.2.toOption = some 1 ∧ r4.2.toOption = some 2 := by decide
 
 end Edzed.TrTie
